@@ -201,6 +201,29 @@ def boundary_zone(ctx, dim, width, shape, field_type):
                 ctx.le(f"zone_value_bounded_below:{name}", -M, fa[c])
 
 
+@scenario
+def boundary_zone_closed_form(ctx, dim, width, shape, field_type):
+    """zone value = inner-edge value x quarter-sine ramp, axis by axis (x, then y, then z), for disjoint zones (n >= 2*width)"""
+    from checks.common import bound_vars, close_array
+    from ref import flow_ref as FR
+
+    _, spne, sps, _ = sopht_modules()
+    shape = tuple(shape)
+    sim = sps.PassiveTransportFlowSimulator(kinematic_viscosity=0.1, grid_dim=dim, grid_size=shape, x_range=1.0, real_t=ctx.real_t, num_threads=1)
+    if dim == 2:
+        k = spne.gen_penalise_field_boundary_pyst_kernel_2d(width=width, dx=sim.dx, x_grid_field=sim.position_field[0], y_grid_field=sim.position_field[1], real_t=ctx.real_t, num_threads=False)
+    else:
+        k = spne.gen_penalise_field_boundary_pyst_kernel_3d(width=width, dx=sim.dx, x_grid_field=sim.position_field[0], y_grid_field=sim.position_field[1], z_grid_field=sim.position_field[2],
+                                                            real_t=ctx.real_t, num_threads=False, field_type=field_type)
+    vector = field_type == "vector"
+    f = ctx.array("f", (3, *shape) if vector else shape, default=0.5)
+    bound_vars(ctx, f)
+    f0 = f.copy()
+    (k(vector_field=f) if vector else k(field=f))
+    ref = FR.stage_boundary_zone(f0, width, dim, vector)
+    close_array(ctx, "zone_value_is_edge_value_times_ramp", f, ref, 1e-11 if ctx.real_t == np.float64 else 5e-4)
+
+
 # ------------------------------------------------------------------------------------- filters
 def _make_filter(ctx, spne, order, ftype, field_type, shape, tag):
     b1, b2 = ctx.array(f"{tag}flux_buf", shape), ctx.array(f"{tag}field_buf", shape)
@@ -324,6 +347,10 @@ def main():
             if w <= (2 if chk.quick else 4):
                 chk.add(boundary_zone, real_t=rt, dim=3, width=w, shape=(n, n + 1, n + 2), field_type="scalar")
                 chk.add(boundary_zone, real_t=rt, dim=3, width=w, shape=(n + 2, n, n + 1), field_type="vector")
+        # closed form on non-cubic grids down to the smallest grid with disjoint zones (n = 2*width)
+        for w, sh2, sh3 in ((1, (2, 3), (2, 3, 4)), (2, (5, 4), (4, 5, 6)), (3, (6, 7), (7, 6, 8))) if chk.quick else ((1, (2, 3), (2, 3, 4)), (2, (5, 4), (4, 5, 6)), (3, (6, 7), (7, 6, 8)), (4, (8, 9), (8, 9, 10)), (5, (10, 11), (10, 11, 10)), (6, (12, 13), (12, 12, 13))):
+            chk.add(boundary_zone_closed_form, real_t=rt, dim=2, width=w, shape=sh2, field_type="scalar")
+            chk.add(boundary_zone_closed_form, real_t=rt, dim=3, width=w, shape=sh3, field_type="scalar" if w != 3 else "vector")
         orders = (1, 2) if chk.quick else (1, 2, 3, 4)
         for order in orders:
             for ftype in ("multiplicative", "convolution"):
@@ -336,7 +363,7 @@ def main():
         chk.add(brinkmann, real_t="float32", variant="field", dim=3, field_type="vector")
         chk.add(boundary_zone, real_t="float32", dim=3, width=2, shape=(5, 6, 7), field_type="vector")
         chk.add(filter_fourier_symbol, real_t="float32", order=1, ftype="convolution")
-    chk.bounds = ["Brinkmann: per-cell claims on 2^d grids, penalty >= 0, indicator >= 0, all field/target values", "characteristic function: blend widths 0.1 and 2*dx(1/16); phi symbolic per case",
+    chk.bounds = ["boundary zone: closed form (edge value x quarter-sine ramp) on non-cubic grids down to n = 2*width; grids whose front and back zones overlap (n < 2*width) are outside the claim: the zone's inner edge is not defined there", "Brinkmann: per-cell claims on 2^d grids, penalty >= 0, indicator >= 0, all field/target values", "characteristic function: blend widths 0.1 and 2*dx(1/16); phi symbolic per case",
                   f"boundary zone: widths {list(widths)} on (2w+1)x(2w+2) (x..) grids, scalar and vector", f"filters: orders {list(orders)}, both types, scalar/vector; (2p+3)^3 grids; Fourier modes: cos(theta_a) in [-1,1] and 8 seeds symbolic"]
     chk.outside = ["rounding", "filter behaviour within p+1 cells of the boundary", "zone widths with overlapping zones (n < 2w)"]
     chk.assumptions = ["sin: one real variable per application with |sin|<=1, sin t<=t (t>=0), reflections about pi/2 via sin(pi-t)=sin t, sin(t+pi)=-sin t, sign on [0,pi], oddness and 1-Lipschitz instances for pairs of applications",
